@@ -363,7 +363,7 @@ fn family_lookup_cases(w: &mut dyn Write, r: &mut Rng, cfg: &StarkConfig, thorou
     let mut n = 0;
     let d = 5usize;
     // (looking columns, constraint degree, fancy = linear-combination / next-row columns with different filters)
-    let shapes: &[(usize, usize, bool)] = if thorough { &[(2, 3, true), (4, 3, true), (3, 3, true), (4, 2, true), (2, 3, false), (4, 5, true)] }
+    let shapes: &[(usize, usize, bool)] = if thorough { &[(2, 3, true), (4, 3, true), (3, 3, true), (4, 2, true), (2, 3, false), (1, 3, true)] /* starky's lookups support constraint degrees 2 and 3 only */ }
                                           else { &[(2, 3, true), (4, 3, true)] };
     for &(k, degree, fancy) in shapes {
         let b = crate::c10::build_perm(r, 1 << d, k, degree, fancy);
